@@ -1,4 +1,5 @@
-// C11: line protocol and series keys round-trip. Bounded-exhaustive over a declared string/value family.
+// C11: line protocol and series keys round-trip. Bounded-exhaustive over a declared string/value family, plus every
+// tag order of 2- and 3-tag points over an alphabet around '=' (family perm).
 package c11
 
 import (
@@ -554,6 +555,249 @@ func sigOf(cs Case, f finding) string {
 }
 
 // ---------------------------------------------------------------------------------------------
+// family "perm": the same point rendered with its tags in EVERY order.
+//
+// Line protocol does not prescribe a tag order, so every permutation of the escaped "key=value" components is a
+// rendering of the same point; the statement demands that parsing it back yields "the same tag set in sorted order"
+// and that the series key is the one built "from a name and tags". The line is assembled here from the escaped
+// components (reference escaping: backslash before ',', '=', ' ' in tag keys/values, before ',' and ' ' in the
+// measurement) — not by calling the code under test.
+
+// permSigma*: bytes below '=' (0x3d) — space, ',', '-', '.', '0', ':', '<' — '=' itself, and bytes above it. ' ', ','
+// and '=' need escaping. No backslash (see the known findings on literal backslashes).
+var permSigmaQuick = []string{" ", "-", "0", ":", "=", ">", "a"}
+var permSigmaThorough = []string{" ", ",", "-", ".", "0", ":", "<", "=", ">", "a", "z"}
+
+// permValues[i] is the value of the tag with the i-th smallest key: deliberately not monotone in the key order.
+var permValues = []string{"v2", "v1", "v3"}
+
+func wordsOver(sigma []string, maxLen int) []string {
+	var out []string
+	cur := []string{""}
+	for l := 1; l <= maxLen; l++ {
+		var next []string
+		for _, p := range cur {
+			for _, s := range sigma {
+				next = append(next, p+s)
+			}
+		}
+		out = append(out, next...)
+		cur = next
+	}
+	return out
+}
+
+func escapeRef(s, set string) string {
+	if !strings.ContainsAny(s, set) {
+		return s
+	}
+	var sb strings.Builder
+	for i := 0; i < len(s); i++ {
+		if strings.IndexByte(set, s[i]) >= 0 {
+			sb.WriteByte('\\')
+		}
+		sb.WriteByte(s[i])
+	}
+	return sb.String()
+}
+
+func escTagRef(s string) string { return escapeRef(s, ",= ") }
+
+// permLine renders the case with the tags in the order of cs.Tags; fields must be of type i (int64).
+func permLine(cs Case) []byte {
+	var sb strings.Builder
+	sb.WriteString(escapeRef(cs.M, ", "))
+	for _, t := range cs.Tags {
+		sb.WriteString("," + escTagRef(t[0]) + "=" + escTagRef(t[1]))
+	}
+	for i, f := range cs.Fields {
+		sep := ","
+		if i == 0 {
+			sep = " "
+		}
+		sb.WriteString(sep + escTagRef(f.K) + "=" + f.V + "i")
+	}
+	sb.WriteString(" " + strconv.FormatInt(cs.Units, 10))
+	return []byte(sb.String())
+}
+
+// permRefKey is the series key of the statement: escaped name, then the escaped tags sorted bytewise by key.
+func permRefKey(w view) string {
+	var sb strings.Builder
+	sb.WriteString(escapeRef(w.name, ", "))
+	for _, t := range w.tags {
+		sb.WriteString("," + escTagRef(t[0]) + "=" + escTagRef(t[1]))
+	}
+	return sb.String()
+}
+
+// sortedByEscapedText: got is exactly want re-ordered by the ESCAPED key text (the known defect line/tag-order).
+func sortedByEscapedText(w, g view) bool {
+	x := append([][2]string(nil), w.tags...)
+	sort.SliceStable(x, func(i, j int) bool { return escTagRef(x[i][0]) < escTagRef(x[j][0]) })
+	if len(x) != len(g.tags) {
+		return false
+	}
+	for i := range x {
+		if x[i] != g.tags[i] {
+			return false
+		}
+	}
+	return true
+}
+
+func permFeature(cs Case) string {
+	esc, prefix, sorted := "plain-keys", "no-prefix-keys", "sorted-input"
+	for i, t := range cs.Tags {
+		if strings.ContainsAny(t[0], ",= ") {
+			esc = "escaped-keys"
+		}
+		if i > 0 && cs.Tags[i-1][0] > t[0] {
+			sorted = "unsorted-input"
+		}
+		for j, u := range cs.Tags {
+			if i != j && len(t[0]) < len(u[0]) && strings.HasPrefix(u[0], t[0]) {
+				prefix = "prefix-keys"
+			}
+		}
+	}
+	return esc + "/" + prefix + "/" + sorted
+}
+
+// runPerm parses the permuted rendering and checks every clause; findings in order of importance.
+func runPerm(cs Case) (fs []finding) {
+	w := wantOf(cs)
+	line := permLine(cs)
+	guarded("PermLine", &fs, func() {
+		pts, err := models.ParsePointsWithPrecision(append([]byte(nil), line...), defaultTime, cs.Prec)
+		if err != nil {
+			fs = append(fs, finding{"PermLine", "parse-error", fmt.Sprintf("line %q: %v", line, err)})
+			return
+		}
+		if len(pts) != 1 {
+			fs = append(fs, finding{"PermLine", "point-count", fmt.Sprintf("line %q parsed into %d points", line, len(pts))})
+			return
+		}
+		p := pts[0]
+		g, ferr := viewOfPoint(p)
+		if ferr != nil {
+			fs = append(fs, finding{"PermLine", "fields", fmt.Sprintf("line %q: Fields(): %v", line, ferr)})
+			return
+		}
+		for _, cl := range diff(w, g, true, true) {
+			if cl == "tag-order" && sortedByEscapedText(w, g) {
+				cl = "tag-order-by-escaped-text"
+			}
+			fs = append(fs, finding{"PermLine", cl, fmt.Sprintf("line %q: want %s got %s", line, w.show(), g.show())})
+		}
+		ref := permRefKey(w)
+		if k := string(p.Key()); k != ref {
+			fs = append(fs, finding{"PermLine/Key", "key-mismatch", fmt.Sprintf("line %q: Key()=%q, the key of the name and sorted tag set is %q", line, k, ref)})
+		}
+		var st models.Tags
+		for _, t := range w.tags {
+			st = append(st, models.NewTag([]byte(t[0]), []byte(t[1])))
+		}
+		if mk := string(models.MakeKey([]byte(cs.M), st)); mk != string(p.Key()) || mk != ref {
+			fs = append(fs, finding{"PermLine/MakeKey", "key-mismatch", fmt.Sprintf("line %q: MakeKey(name, sorted tags)=%q Key()=%q reference %q", line, mk, p.Key(), ref)})
+		}
+		name, ptags := models.ParseKey(append([]byte(nil), p.Key()...))
+		g2 := view{name: name}
+		for _, t := range ptags {
+			g2.tags = append(g2.tags, [2]string{string(t.Key), string(t.Value)})
+		}
+		for _, cl := range diff(w, g2, false, false) {
+			fs = append(fs, finding{"PermLine/ParseKey", cl, fmt.Sprintf("line %q: ParseKey(Key()=%q) = name %q tags %q, want name %q tags %q", line, p.Key(), g2.name, g2.tags, w.name, w.tags)})
+		}
+	})
+	return
+}
+
+// permSig: the known defect (tags ordered by escaped text) keeps its existing class line/tag-order; every other
+// failure of the family is classed by path, clause and the discriminating features of the tag keys / input order.
+func permSig(cs Case, f finding) string {
+	if f.Clause == "tag-order-by-escaped-text" {
+		return vlib.JoinSig("line", "tag-order")
+	}
+	return vlib.JoinSig("perm", f.Path, f.Clause, permFeature(cs))
+}
+
+func permute(n int, f func(p []int)) {
+	p := make([]int, n)
+	used := make([]bool, n)
+	var rec func(d int)
+	rec = func(d int) {
+		if d == n {
+			f(p)
+			return
+		}
+		for i := 0; i < n; i++ {
+			if !used[i] {
+				used[i], p[d] = true, i
+				rec(d + 1)
+				used[i] = false
+			}
+		}
+	}
+	rec(0)
+}
+
+// explorePerm: every set of nTags distinct keys from `keys` (values by rank, see permValues) × every line order.
+func explorePerm(c *vlib.Ctx, idx *int64, keys []string, nTags int) bool {
+	sel := make([]int, nTags)
+	var rec func(d, from int) bool
+	rec = func(d, from int) bool {
+		if d < nTags {
+			for i := from; i < len(keys); i++ {
+				sel[d] = i
+				if !rec(d+1, i+1) {
+					return false
+				}
+			}
+			return true
+		}
+		if c.Expired() {
+			c.Cap(fmt.Sprintf("perm family: budget expired inside the %d-tag sets", nTags))
+			return false
+		}
+		ks := make([]string, nTags)
+		for i, s := range sel {
+			ks[i] = keys[s]
+		}
+		sort.Strings(ks) // rank order (bytewise)
+		permute(nTags, func(p []int) {
+			*idx++
+			if !c.Mine(*idx) {
+				return
+			}
+			cs := Case{Fam: "perm", M: "m0", Fields: []F{{"f0", "i", "7"}}, Units: 1, Prec: "ns"}
+			for _, r := range p {
+				cs.Tags = append(cs.Tags, [2]string{ks[r], permValues[r]})
+			}
+			c.Eval(1)
+			c.NontrivialN(1)
+			fs := runPerm(cs)
+			ft := permFeature(cs)
+			switch {
+			case len(fs) == 0:
+				c.Outcome(fmt.Sprintf("perm:%d-tags:parses-back-sorted/%s", nTags, ft))
+			case fs[0].Clause == "tag-order-by-escaped-text":
+				c.Outcome(fmt.Sprintf("perm:%d-tags:ordered-by-escaped-text(known)/%s", nTags, ft))
+				c.Violation(permSig(cs, fs[0]), fmt.Sprintf("%s: %s — %s", fs[0].Path, fs[0].Clause, fs[0].Detail), cs)
+			default:
+				c.Outcome(fmt.Sprintf("perm:%d-tags:differs/%s/%s", nTags, fs[0].Clause, ft))
+				c.Violation(permSig(cs, fs[0]), fmt.Sprintf("%s: %s — %s", fs[0].Path, fs[0].Clause, fs[0].Detail), cs)
+			}
+			if c.WantSample() && *idx%9973 == 0 {
+				c.Sample(cs)
+			}
+		})
+		return true
+	}
+	return rec(0, 0)
+}
+
+// ---------------------------------------------------------------------------------------------
 
 func explore(c *vlib.Ctx) {
 	var idx int64
@@ -640,15 +884,26 @@ func explore(c *vlib.Ctx) {
 		}
 		visit(cs, true)
 	}
+	// family "perm": every set of 2 tags with keys of length 1–3 and every set of 3 tags with keys of length 1–2 over
+	// permSigma, rendered in every tag order (2! / 3! lines per set)
+	sigma := permSigmaQuick
+	if c.Thorough() {
+		sigma = permSigmaThorough
+	}
+	if !explorePerm(c, &idx, wordsOver(sigma, 3), 2) {
+		return
+	}
+	explorePerm(c, &idx, wordsOver(sigma, 2), 3)
 }
 
 func TestCheck(t *testing.T) {
 	vlib.Main(t, &vlib.Check{
 		ID: "C11", Level: "exploration",
-		Rule: "family strings: for every unordered pair of the components {measurement, tag key, tag value, field key, string field value, second tag key} both components range over all strings over Σ={a,space,comma,=,\",\\,é,0x01} of length 1–2 (thorough: one of the two up to length 3), the other components fixed (point has 2 tags, 2 fields); family values: 19 float bit patterns (4 rejected: ±Inf/NaN) + 11 int64 + 7 uint64 + 2 bool + 10 strings × 7 timestamps {Min,−1,0,1,Max,Min−1,Max+1 in units of the precision} × precisions {ns,us,ms,s} × 2 companion fields; NewPoint must accept exactly the reference-valid points (≥1 field, non-empty field keys, finite floats, time in [MinNanoTime,MaxNanoTime]); accepted points are round-tripped through String/AppendString→ParsePointsWithPrecision(ns), PrecisionString(p)→ParsePointsWithPrecision(p) for every p∈{us,ms,s} dividing the timestamp (plus: rendered timestamp = ns/unit, and a reference-rendered line at precision p parses to the same ns), MarshalBinary→NewPointFromBytes, MakeKey→ParseKey/ParseKeyBytes; oracle = equality of name, tags sorted bytewise by key, field name/type/value (Float64bits-exact), UnixNano; non-trivial = every case except the all-'a' string pair (cases distinct by construction)",
+		Rule: "family strings: for every unordered pair of the components {measurement, tag key, tag value, field key, string field value, second tag key} both components range over all strings over Σ={a,space,comma,=,\",\\,é,0x01} of length 1–2 (thorough: one of the two up to length 3), the other components fixed (point has 2 tags, 2 fields); family values: 19 float bit patterns (4 rejected: ±Inf/NaN) + 11 int64 + 7 uint64 + 2 bool + 10 strings × 7 timestamps {Min,−1,0,1,Max,Min−1,Max+1 in units of the precision} × precisions {ns,us,ms,s} × 2 companion fields; NewPoint must accept exactly the reference-valid points (≥1 field, non-empty field keys, finite floats, time in [MinNanoTime,MaxNanoTime]); accepted points are round-tripped through String/AppendString→ParsePointsWithPrecision(ns), PrecisionString(p)→ParsePointsWithPrecision(p) for every p∈{us,ms,s} dividing the timestamp (plus: rendered timestamp = ns/unit, and a reference-rendered line at precision p parses to the same ns), MarshalBinary→NewPointFromBytes, MakeKey→ParseKey/ParseKeyBytes; oracle = equality of name, tags sorted bytewise by key, field name/type/value (Float64bits-exact), UnixNano; family perm: every set of 2 tags with distinct keys ranging over all strings of length 1–3, and every set of 3 tags with keys of length 1–2, over Σp={space,-,0,:,=,>,a} (thorough: Σp={space,comma,-,.,0,:,<,=,>,a,z}) i.e. bytes below, equal to and above '=' including every proper-prefix key pair; tag values v2,v1,v3 by key rank (not monotone in the key); the line is assembled by the harness from the reference-escaped components with the tags in EVERY order (2!/3! lines per set) and parsed with ParsePointsWithPrecision(ns): Tags() must be the tag set sorted bytewise by key, name/fields/time equal, Key() = escaped name + escaped tags sorted by key = MakeKey(name, sorted tags), and ParseKey(Key()) must return the name and tag set (a mis-order that is exactly the order of the ESCAPED key texts is the known class line/tag-order); non-trivial = every case except the all-'a' string pair (cases distinct by construction)",
 		Assumptions: []string{
 			"a 'valid point' is one models.NewPoint accepts with non-empty measurement, tag keys, tag values and field keys",
 			"strings longer than 3 symbols and bytes outside Σ (e.g. newline, '#', tab, NUL, invalid UTF-8) are not covered",
+			"line protocol does not prescribe a tag order: a line with the escaped tags of a point in any order is a rendering of that point (family perm); more than 3 tags per line are not permuted",
 		},
 		QuickBudgetS: 40, ThoroughBudgetS: 800,
 		Run: explore,
@@ -656,6 +911,15 @@ func TestCheck(t *testing.T) {
 			var cs Case
 			if err := json.Unmarshal(raw, &cs); err != nil {
 				return false, err.Error()
+			}
+			if cs.Fam == "perm" {
+				fs := runPerm(cs)
+				var sb strings.Builder
+				fmt.Fprintf(&sb, "case=%s line=%q\n", raw, permLine(cs))
+				for _, f := range fs {
+					fmt.Fprintf(&sb, "  %s: %s — %s\n", f.Path, f.Clause, f.Detail)
+				}
+				return len(fs) > 0, sb.String()
 			}
 			acc, rej, fs := run(cs)
 			var sb strings.Builder
